@@ -228,7 +228,9 @@ def norm_conv(out, tb):
         if " " in v and u in tb.compound:
             for w in u.split(" "):
                 res.append((tb.kw.get(w, 0), w))
-        elif u in tb.kw and ty not in tb.literal_types:
+        elif (u in tb.kw or (u in getattr(tb, "conv_kw", ()) and ty != tb.tt["Identifier"])) and ty not in tb.literal_types:
+            # keyword tokens compare by their upper-cased spelling (the converter keeps the written spelling of the
+            # identifiers it re-types as keywords; the parse decides whether that matters)
             res.append((ty, u))
         else:
             res.append((ty, v))
@@ -582,7 +584,7 @@ def run(tier):
     pairs_l = []
     for s in lay_in:
         try:
-            r = lexgen.relayout(rng, s, tb)
+            r = lexgen.relayout(rng, s, tb, conv=(s in conv_stmts))
         except Exception:
             r = None
         if r is not None and r != s:
